@@ -5,7 +5,7 @@ from __future__ import annotations
 import ast
 from dataclasses import replace
 
-from .aval import (ANY, AVal, BOOL, BOTTOM, FLOAT, INT, JSON_TAGS, NONE, STR, TYPE, clip, const,
+from .aval import (is_fresh_empty, ANY, AVal, BOOL, BOTTOM, FLOAT, INT, JSON_TAGS, NONE, STR, TYPE, clip, const,
                    deeper, elem_of, join, join_all, key_of, mk, narrow_json, remove_tags)
 from .absint import LT, PC
 from .program import ClassInfo, External, FuncInfo, Module, norm
@@ -472,7 +472,14 @@ class ExprMixin:
     # -- attribute / subscript --------------------------------------------------------------------
     def e_Attribute(self, node, env, frame):
         base = self.ev(node.value, env, frame)
-        return self.attr(base, node.attr, node, env, frame)
+        v = self.attr(base, node.attr, node, env, frame)
+        facts = env.get("$attrfacts")
+        if facts and isinstance(node.value, ast.Name) and (node.value.id, node.attr) in facts and not v.is_bottom:
+            # `if not x.a: return` was passed (and nothing that could rebind x.a ran since): x.a is truthy here
+            if self.truth(v) is False or is_fresh_empty(v):
+                return BOTTOM
+            v = self._truthy_part(v)
+        return v
 
     def _runtime_classes(self, v: AVal, cq):
         c = self.prog.classes.get(cq)
@@ -706,7 +713,17 @@ class ExprMixin:
         fake = type("F", (), {})()
         fake.module = owner.module; fake.qualname = owner.qualname; fake.file = owner.module.relpath; fake.cls = owner
         from .absint import Frame
-        return self.ev(v, {PC: False, LT: False}, Frame(fake, ()))
+        cv = self.ev(v, {PC: False, LT: False}, Frame(fake, ()))
+        if cv.types & {"dict", "list", "set"} and not cv.is_json:
+            # class-level mutable state is shared by all instances: a store into it is a write to global state
+            def _glob(x, depth=0):
+                if x is None or x.is_bottom:
+                    return x
+                org = frozenset({("global", 1 if depth else 0)}) if x.types & {"dict", "list", "set"} else x.org
+                return replace(x, org=org, elem=_glob(x.elem, depth + 1), key=x.key,
+                               tup=tuple(_glob(t, depth + 1) for t in x.tup) if x.tup is not None else None)
+            cv = _glob(cv)
+        return cv
 
     def e_Subscript(self, node, env, frame):
         base = self.ev(node.value, env, frame)
@@ -756,6 +773,8 @@ class ExprMixin:
                 self.raise_many(frame, ("TypeError", "IndexError"), node, env, True, reason="input node used as index of a library sequence")
         elif k.taint == 2 and base.types & {"dict"} and not is_slice:
             self.raise_exc(frame, "KeyError", node, env, True, reason="input value used as key of a library mapping")
+        elif _key_taint(k) >= 1 and k.taint < 2 and base.types & {"dict"} and not base.is_json and not is_slice and not (k.has_const and base.key is not None and base.key.cset() and ("c", k.const_value()) in base.key.cset()):
+            self.raise_exc(frame, "KeyError", node, env, True, reason="value derived from the input used as key of a library mapping")
         outs = []
         for cq in base.inst_classes():
             for c in self._runtime_classes(base, cq)[:1]:
@@ -776,7 +795,11 @@ class ExprMixin:
                     outs.append(elem_of(replace(base, tup=None, types=frozenset(rest2))))
             else:
                 outs.append(elem_of(replace(base, types=frozenset(rest))))
-        return join_all(outs) if outs else BOTTOM
+        res = join_all(outs) if outs else BOTTOM
+        if not res.is_bottom and _key_taint(k) > 0 and res.taint == 0 and not is_slice:
+            # which element is selected depends on the input
+            res = replace(res, taint=1)
+        return res
 
     # -- iteration helpers -------------------------------------------------------------------------
     def iter_ops(self, it: AVal, node, env, frame):
@@ -810,6 +833,10 @@ class ExprMixin:
             self.raise_many(frame, ("TypeError", "ValueError"), node, env, True, reason="unpacking input node of unknown type")
         elif v.taint == 2 and v.types & {"list", "tuple", "str", "dict"} and v.tup is None:
             self.raise_exc(frame, "ValueError", node, env, True, reason="unpacking input sequence of unknown length")
+        if not v.is_bottom and not v.is_json and v.types & {"none"}:
+            # a library value that may be None / a number on some path (e.g. a not-found marker) is unpacked
+            deep = max([v.taint] + [x.taint for x in (v.tup or ())] + ([v.elem.taint] if v.elem is not None else []))
+            self.raise_exc(frame, "TypeError", node, env, deep > 0 or bool(env.get(PC)), reason="unpacking a value that may be None (e.g. a not-found marker)")
 
     # -- truth / narrowing ----------------------------------------------------------------------------
     def truth(self, v: AVal):
@@ -961,6 +988,34 @@ class ExprMixin:
                     break
                 cur = nxt
             return outs if feasible else None
+        if isinstance(test, ast.Attribute) and isinstance(test.value, ast.Name) and test.value.id in env:
+            with _Quiet(self):
+                tv = self.ev(test, env, frame)
+            t = self.truth(tv) if not tv.is_bottom else None
+            if t is None and is_fresh_empty(tv):
+                t = False
+            if t is not None and t != branch:
+                return None
+            if branch:
+                e = dict(env)
+                e["$attrfacts"] = (e.get("$attrfacts") or frozenset()) | {(test.value.id, test.attr)}
+                return e
+            return env
+        if isinstance(test, ast.Name) and env.get("$cobound") and branch:
+            for grp in env["$cobound"]:
+                if test.id in grp:
+                    # a flag bound together with a value from one call (`value, found = locate(..)`) holds:
+                    # assume it is the found-flag, i.e. the value / its elements are not the None marker
+                    # (an assumption, recorded in the evidence of the rules that use the interpreter)
+                    env = dict(env)
+                    for other in grp - {test.id}:
+                        ov = env.get(other)
+                        if ov is None or ov.is_bottom:
+                            continue
+                        if ov.elem is not None and "none" in ov.elem.types and len(ov.elem.types) > 1:
+                            env[other] = replace(ov, elem=remove_tags(ov.elem, {"none"}))
+                        elif "none" in ov.types and len(ov.types) > 1:
+                            env[other] = remove_tags(ov, {"none"})
         if isinstance(test, ast.Name):
             v = env.get(test.id)
             g = (env.get("$guards") or {}).get(test.id)
@@ -1029,6 +1084,21 @@ class ExprMixin:
                         if not positive and v.has_const and v.const_value() == y.value and type(v.const_value()) == type(y.value):
                             return None
                 return env
+            if isinstance(op, (ast.In, ast.NotIn)) and isinstance(l, ast.Subscript) and isinstance(l.value, ast.Name) and l.value.id in env \
+                    and isinstance(l.slice, ast.Constant) and l.slice.value == 0 and isinstance(r, (ast.List, ast.Tuple)):
+                # the only element of a one-element list (see the `x = [x]` guard rewriting in assign)
+                positive = isinstance(op, ast.In) == branch
+                v = env[l.value.id]
+                if not positive and v.elem is not None and v.types <= {"list"}:
+                    consts = [e_.value for e_ in r.elts if isinstance(e_, ast.Constant)]
+                    ne = v.elem
+                    if None in consts:
+                        ne = remove_tags(ne, {"none"})
+                        if ne.is_bottom:
+                            return None
+                    e = dict(env); e[l.value.id] = replace(v, elem=ne)
+                    return e
+                return env
             if isinstance(op, (ast.In, ast.NotIn)) and isinstance(l, ast.Name) and l.id in env and isinstance(r, (ast.List, ast.Tuple)):
                 positive = isinstance(op, ast.In) == branch
                 v = env[l.id]
@@ -1083,6 +1153,15 @@ class _Quiet:
     def __exit__(self, *a):
         del self.interp.raise_exc
         return False
+
+
+def _key_taint(k: AVal) -> int:
+    """Taint of a subscript key, looking into tuple keys (`table[(a, b)]`)."""
+    t = k.taint
+    if k.tup is not None:
+        for x in k.tup:
+            t = max(t, min(x.taint, 1) if x.taint < 2 else 1)
+    return t
 
 
 def _ej(a, b):
